@@ -14,6 +14,8 @@ import (
 	"io"
 	"os"
 	"strings"
+	"sync"
+	"time"
 
 	"github.com/douban/gobeansdb/cmem"
 )
@@ -376,4 +378,62 @@ func VerifHintMergeMode(paths []string, chunks []int, dst string, forGC bool) (c
 		}
 	}
 	return
+}
+
+// ---- fine-grained concurrency (engine concfine): everything below is read while every goroutine is parked ----
+
+// VerifChunkObs is what Model/ConcFine.lean's ChunkObs holds for one dataChunk (bytes, not blocks).
+type VerifChunkObs struct {
+	Path        string
+	BufLen      int    // len(dc.wbuf)
+	DiskSize    uint32 // dc.getDiskFileSize()
+	WritingHead uint32
+	Size        uint32
+}
+
+// VerifDataObs reads ds.newHead, ds.wbufSize and the chunks 0..newHead without taking any lock.
+func (store *HStore) VerifDataObs(bucketID int) (head int, wbufSize uint32, chunks []VerifChunkObs) {
+	ds := store.buckets[bucketID].datas
+	head, wbufSize = ds.newHead, ds.wbufSize
+	for i := 0; i <= head; i++ {
+		dc := &ds.chunks[i]
+		chunks = append(chunks, VerifChunkObs{dc.path, len(dc.wbuf), dc.getDiskFileSize(), dc.writingHead, dc.size})
+	}
+	return
+}
+
+// VerifTreeItem is htree.get for a key of the bucket (the key hash is computed like HStore.Get does).
+func (store *HStore) VerifTreeItem(bucketID int, key string) (ver int32, chunk int, off uint32, found bool) {
+	ki := NewKeyInfoFromBytes([]byte(key), 0, false)
+	ki.KeyHash = getKeyHash(ki.Key)
+	ki.Prepare()
+	meta, pos, found := store.buckets[bucketID].htree.get(ki)
+	return meta.Ver, pos.ChunkID, pos.Offset, found
+}
+
+// VerifFlushChunk is dataStore.flush(chunk, force) of one bucket (chunk -1: what HStore.flushdatas calls).
+func (store *HStore) VerifFlushChunk(bucketID, chunk int, force bool) error {
+	return store.buckets[bucketID].datas.flush(chunk, force)
+}
+
+// VerifSetLastFlush sets the clock test of dataStore.flush: late = "the last flush was less than FlushInterval ago".
+func (store *HStore) VerifSetLastFlush(bucketID int, late bool) {
+	ds := store.buckets[bucketID].datas
+	if late {
+		ds.lastFlushTime = time.Now()
+	} else {
+		ds.lastFlushTime = time.Time{}
+	}
+}
+
+// VerifWriterState: the offset the next append of a data stream writer goes to and the bytes still in its bufio layer.
+func VerifWriterState(w interface{}) (offset uint32, buffered int) {
+	sw := w.(*DataStreamWriter)
+	return sw.offset, sw.wbuf.Buffered()
+}
+
+// VerifLocks: the three mutexes of a bucket that are held across micro-steps (bkt.writeLock, ds.Mutex, ds.flushLock).
+func (store *HStore) VerifLocks(bucketID int) (writeLock, dsLock, flushLock *sync.Mutex) {
+	bkt := store.buckets[bucketID]
+	return &bkt.writeLock, &bkt.datas.Mutex, &bkt.datas.flushLock
 }
